@@ -272,3 +272,30 @@ Proof.
   induction after as [|q t IHa]; [reflexivity|].
   cbn [map app a_run a_step a_write]. f_equal. exact IHa.
 Qed.
+
+(* the same on the model, through the refinement *)
+Lemma done_exactly_first_model f p0 before p after :
+  Forall wf_pkt (p0 :: before ++ [p] ++ after) ->
+  has_pusi p0 = true -> unit_ok p0 ->
+  Forall (fun q => has_pusi q = false /\ unit_ok q) (before ++ [p]) ->
+  (forall j, (j <= length before)%nat -> f (bytes_of (firstn (S j) (p0 :: before))) = (false, None)) ->
+  f (bytes_of (p0 :: before ++ [p])) = (true, None) ->
+  exists outs,
+    run f new_acc (map OWrite (p0 :: before ++ [p] ++ after) ++ [OBytes; OPackets]) = Ok outs /\
+    map abs_out outs
+    = map (fun _ => SWrite None) (p0 :: before) ++ [SWrite (Some E.AccumulatorDone)]
+      ++ map (fun _ => SWrite (Some E.AccumulatorDone)) after
+      ++ [SBytes (bytes_of (p0 :: before ++ [p])); SPackets (p0 :: before ++ [p])].
+Proof.
+  intros Hwf Hp0 Hok0 Hrest Hf Hdone.
+  assert (Hops : Forall wf_op (map OWrite (p0 :: before ++ [p] ++ after) ++ [OBytes; OPackets])).
+  { apply Forall_app. split.
+    - apply Forall_forall. intros o Ho. apply in_map_iff in Ho. destruct Ho as [q [<- Hq]].
+      cbn [wf_op]. rewrite Forall_forall in Hwf. exact (Hwf q Hq).
+    - repeat constructor. }
+  destruct (refines f _ Hops) as [outs [Hrun Hmap]].
+  exists outs. split; [exact Hrun|]. rewrite Hmap.
+  rewrite map_app, map_map. cbn [map abs_op].
+  change (map (fun x : bytes => abs_op (OWrite x))) with (map AWrite).
+  exact (done_exactly_first f p0 before p after Hp0 Hok0 Hrest Hf Hdone).
+Qed.
